@@ -44,9 +44,9 @@ func vNewMap(order int) Map[vK, vK] {
 	}
 	return NewMapCmp[vK, vK](func(a, b vK) int {
 		if a < b {
-			return -1
+			return -3 // (any negative number means "less": not only -1)
 		} else if a > b {
-			return 1
+			return 5
 		}
 		return 0
 	})
